@@ -549,12 +549,18 @@ pub fn per_visible_range_constraints(
     signed: bool,
     constraint_list: &[Constraint],
 ) -> Result<PerVisibleRangeConstraints, GrammarError> {
-    let mut constraints = if signed {
+    let mut visible = constraint_list
+        .iter()
+        .filter(|c| c.per_visible())
+        .peekable();
+    // Constraints that are not PER-visible contribute no bound at all:
+    // the lower bound 0 of the unsigned kinds only seeds bounds that are there
+    let mut constraints = if signed || visible.peek().is_none() {
         PerVisibleRangeConstraints::default()
     } else {
         PerVisibleRangeConstraints::default_unsigned()
     };
-    for c in constraint_list.iter().filter(|c| c.per_visible()) {
+    for c in visible {
         constraints += c.try_into()?
     }
     Ok(constraints)
